@@ -63,6 +63,7 @@ class AsyncListener:
         'data',
         'last_time',
         'last_message',
+        'last_addrs',
         'transport',
         'sock_description',
         '_deferred',
@@ -77,6 +78,7 @@ class AsyncListener:
         self.data: Optional[bytes] = None
         self.last_time: float = 0
         self.last_message: Optional[DNSIncoming] = None
+        self.last_addrs: Optional[Tuple] = None
         self.transport: Optional[_WrappedTransport] = None
         self.sock_description: Optional[str] = None
         self._deferred: Dict[str, List[DNSIncoming]] = {}
@@ -148,10 +150,15 @@ class AsyncListener:
             v6_flow_scope = (flow, scope)
             addr_port = (addr, port)
 
+        # Only a copy that comes from the same source is the repeat of a query
+        # we have just handled; the same bytes from another host are that
+        # host's own query and are answered in full
+        repeat = duplicate and self.last_addrs == addrs
         msg = DNSIncoming(data, addr_port, scope, now)
         self.data = data
         self.last_time = now
         self.last_message = msg
+        self.last_addrs = addrs
         if msg.valid is True:
             if debug:
                 log.debug(
@@ -185,7 +192,7 @@ class AsyncListener:
 
         if TYPE_CHECKING:
             assert self.transport is not None
-        if duplicate:
+        if repeat:
             self.handle_query_or_defer(msg, addr, port, self.transport, v6_flow_scope, True)
             return
         self.handle_query_or_defer(msg, addr, port, self.transport, v6_flow_scope)
